@@ -1001,7 +1001,7 @@ def cold_starts(ctx, refs, rnd, quick):
             os.chdir(d)
             with contextlib.redirect_stdout(io.StringIO()):
                 bisc_mod.write_bisc_files(3, lambda p: PREDS["stack_sortable"](tuple(p)), "cold")
-            env = dict(os.environ, PYTHONPATH=REPO + os.pathsep + os.environ.get("PYTHONPATH", ""))
+            env = util.hash_env(20 + k, PYTHONPATH=REPO + os.pathsep + os.environ.get("PYTHONPATH", ""))
             pr = subprocess.run([sys.executable, "-c", COLD, json.dumps(plan)], capture_output=True, text=True, timeout=900, env=env, cwd=d, check=False)
             if pr.returncode != 0:
                 raise tlc.MachineryFailure("C20: cold-start interpreter failed: " + pr.stderr[-400:])
